@@ -418,7 +418,7 @@ pub(crate) fn program_declaration_extern_ansi(s: Span) -> IResult<Span, ProgramD
 #[tracable_parser]
 #[packrat_parser]
 pub(crate) fn program_nonansi_header(s: Span) -> IResult<Span, ProgramNonansiHeader> {
-    let (s, (a, b)) = many_till(attribute_instance, keyword("prgogram"))(s)?;
+    let (s, (a, b)) = many_till(attribute_instance, keyword("program"))(s)?;
     let (s, c) = opt(lifetime)(s)?;
     let (s, d) = program_identifier(s)?;
     let (s, e) = many0(package_import_declaration)(s)?;
